@@ -213,3 +213,110 @@ prop(
          "or non-coprime moduli / different residues (crt). In the thorough tier only every 32nd non-trivial hash is stored.",
     assumptions=["magnitudes stay where the mathematical intermediate values fit the integer type (<= 2^20 over i64)"],
 )
+
+prop(
+    "C05",
+    level="exploration",
+    crash_is_violation=True,
+    technique="reference-model runtime monitor + invariant hook: naive component labelling as the model, parent-forest walk "
+              "through the read-only hook (acyclic, depth <= floor(log2(size)), size at roots), representative stability "
+              "between unions; random, bounded-exhaustive and adversarial union orders",
+    level_text="Exploration: random histories of un/par/check/size/reset(grow, shrink, zero)/clone on up to 64 elements with a "
+               "complete verification (every pair, every member's representative, forest invariant through the hook) after "
+               "every operation; all op sequences up to a stated length on n<=5; eleven adversarial union orders (chains "
+               "in both argument orders, binomial worst case through roots and through deepest elements, stars, "
+               "caterpillars, random with interleaved lookups) up to 2^17 (quick) / 10^6 (thorough) elements with staged "
+               "depth checkpoints after 64, 256, 1024, ... unions so that a degenerating forest is reported long before "
+               "recursion depth matters.",
+    level_note="Trusted: the relabelling model and the compression-free union-find used above 4096 elements; the hook only "
+               "exposes the parent and size arrays read-only. The depth bound is checked on the orders driven, not for all "
+               "orders. Process death (stack exhaustion) counts as a violation for this property.",
+    runs=[
+        dict(engine="dsumon", profile="release", args=["--mode", "random"], group="random"),
+        dict(engine="dsumon", profile="release", args=["--mode", "exhaustive"], group="exhaustive"),
+        dict(engine="dsumon", profile="release", args=["--mode", "adversarial"], group="adversarial"),
+        dict(engine="dsumon", profile="dev", args=["--mode", "random", "--cases", "30000"], group="random",
+             label="dsumon/dev/random (overflow + bounds checks on)"),
+    ],
+    floor=dict(quick=500_000, thorough=5_000_000),
+    counter_floors=dict(quick=dict(forest_checks=10_000_000, un_checked=5_000_000, par_checked=20_000_000, checkpoints=300, resets=100_000, clones=100_000)),
+    rule="one evaluation = one history (random / enumerated) or one (adversarial order, size) run; distinct_nontrivial = "
+         "histories with >= 2 successful unions and a lookup between unions (random), >= 2 successful unions (enumerated), "
+         "or distinct (order, size) pairs (adversarial).",
+    assumptions=["representative stability is required only between consecutive un calls (any un call ends the window)"],
+)
+
+prop(
+    "C06",
+    level="exploration",
+    technique="differential runtime monitor: Modular<M> for 93 macro-instantiated moduli against i128 rem_euclid / own modpow / "
+              "own Euclid; all operand pairs for every M<=48; overflow checks on in the dev run",
+    level_text="Exploration with an exhaustive sub-space: every operand pair for every modulus 2..=48 under all operators, "
+               "assigning forms, negation, pow, division where coprime; boundary x boundary and random operands for 46 large "
+               "moduli (competition primes, 2^31-1 ... 2^31-20, 2^30 and neighbours, 2^16(+1), 46337^2, 46340*46341, "
+               "primorial, composites); constructor arguments incl. i64::MIN/MAX and +-2^32; exponents to u64::MAX; "
+               "canonicity (inner() < M) after every operation; Display/Debug/Writable/Readable through the canonical value.",
+    level_note="Trusted: i128/u128 oracle arithmetic. Moduli not in the instantiated list are not executed (const generic). "
+               "Division by non-coprime values is outside the property and never executed.",
+    runs=[
+        dict(engine="mintmon", profile="release", args=[], group="all"),
+        dict(engine="mintmon", profile="dev", args=[], group="all", label="mintmon/dev (overflow checks on)"),
+    ],
+    floor=dict(quick=5_000_000, thorough=150_000_000),
+    counter_floors=dict(quick=dict(coprime_divisions=500_000, moduli_seen=93)),
+    rule="one evaluation = one operation instance on one operand tuple for one modulus, compared with the oracle and checked "
+         "for a canonical representative; distinct_nontrivial = distinct (M, op, operands) whose true integer result lay "
+         "outside [0, M) (a reduction was needed).",
+    assumptions=["2 <= M < 2^31"],
+)
+
+prop(
+    "C07",
+    level="exploration",
+    technique="differential runtime monitor: Rational<i32/i64/i128> against exact i128 fractions with an own binary gcd, all "
+              "operator forms, order, hash, floor/ceil; exhaustive small box + boundary-biased sampling",
+    level_text="Exploration with an exhaustive sub-space: every pair of raw fractions with |a|,|b|,|c|,|d| <= 6 (both signs of "
+               "both denominators) and 14 boundary-biased sampling shapes up to 2^30 (i64), 2^14 (i32), 2^60 (i128) with "
+               "factors shared across the two fractions; every operator form (by value, by reference, assigning) compared "
+               "field by field with the canonical exact result; ==, cmp, partial_cmp, hash of equal values and of scaled "
+               "representations, floor/ceil for negative/positive/integral values, Display/Debug.",
+    level_note="Trusted: the engine's checked i128 fraction arithmetic (self-checked; an oracle-side overflow is inconclusive). "
+               "Magnitudes stay inside the property's bound so that necessary intermediates fit the type.",
+    runs=[
+        dict(engine="ratmon", profile="release", args=[], group="all"),
+        dict(engine="ratmon", profile="dev", args=[], group="all", label="ratmon/dev (overflow checks on)"),
+    ],
+    floor=dict(quick=500_000, thorough=2_000_000),
+    counter_floors=dict(quick=dict(operator_evaluations=30_000_000, negative_denominators=300_000, shared_factor_pairs=300_000)),
+    rule="one evaluation = one pair of raw fractions put through all checks (about 60 operator evaluations); "
+         "distinct_nontrivial = distinct (type, a, b, c, d) where a gcd reduction happened in some result or a denominator "
+         "/ divisor numerator was negative.",
+    assumptions=["|a|,|b|,|c|,|d| <= 2^30 over i64 (2^14 over i32, 2^60 over i128)"],
+)
+
+prop(
+    "C19",
+    level="exploration",
+    exhaustive_all=True,
+    technique="exhaustive small-scope runtime monitor: all 780 shapes of rank 1..4 with extents 1..5 - row-major formula, "
+              "panic observation for every single-dimension out-of-range index, text grammar, read-back, equality",
+    level_text="Exhaustive over the stated scope: for every shape of rank 1..4 with extents 1..5, every valid index is compared "
+               "with the row-major offset, every index out of range in exactly one dimension (value = extent, extent+1, "
+               "huge; all combinations of the other coordinates; incl. all whose flattened offset is inside the storage) "
+               "must panic for index / index_mut / get_index, constructors must reject zero extents and wrong lengths, "
+               "write produces the separator grammar and reads back equal for all 12 integer types and strings, and "
+               "equality is checked for single-element differences and for equal data under every different shape of the "
+               "same rank and size.",
+    level_note="Trusted: the engine's Horner offset and odometer, catch_unwind observation of panics. Ranks above 4 and extents "
+               "above 5 (7 in thorough) are not enumerated.",
+    runs=[
+        dict(engine="tensormon", profile="release", args=[], group="all"),
+        dict(engine="tensormon", profile="dev", args=[], group="all", label="tensormon/dev (overflow + bounds checks on)"),
+    ],
+    floor=dict(quick=1_560, thorough=3_000),
+    counter_floors=dict(quick=dict(oob_probes=1_000_000, oob_probes_offset_inside_storage=500_000, index_probes=1_000_000,
+                                   constructor_rejections=50_000, roundtrips=20_000, eq_pairs_same_data_different_shape=20_000)),
+    rule="one evaluation = one shape put through all construction / indexing / bounds / IO / equality checks; "
+         "distinct_nontrivial = distinct shapes with at least two extents > 1 (or rank 1 with extent > 1).",
+    assumptions=["ASCII element tokens for the IO round trip"],
+)
